@@ -64,17 +64,23 @@ func checkC13Wiring(w *World, r *Report, d *dispatchInfo) {
 		return
 	}
 	// the route under construction
-	var rte *ssa.Alloc
+	var rte ssa.Value
 	eachInstr(newRoute, func(in ssa.Instruction) {
 		if a, ok := in.(*ssa.Alloc); ok && a.Heap && namedOf(a.Type()) == route {
 			rte = a
+		}
+		// or built by a constructor helper of the module (rte := fox.routeDefaults())
+		if c, ok := in.(*ssa.Call); ok && rte == nil && c.Call.StaticCallee() != nil && w.InModule(c.Call.StaticCallee()) {
+			if pt, ok := c.Type().(*types.Pointer); ok && namedOf(pt.Elem()) == route {
+				rte = c
+			}
 		}
 	})
 	if rte == nil {
 		anchorFail("NewRoute allocates the route")
 	}
 	b0, f0, ok0 := loadedField(call.Call.Args[0])
-	okList := ok0 && f0 == mws && seeThrough(b0) == ssa.Value(rte)
+	okList := ok0 && f0 == mws && seeThrough(b0) == rte
 	ru.Check("NewRoute chain source", w.Pos(call.Pos()), "chains are built from the new route's own middleware list", okList, valStr(call.Call.Args[0]))
 	handler := call.Call.Args[1]
 	_, isParam := handler.(*ssa.Parameter)
@@ -98,7 +104,7 @@ func checkC13Wiring(w *World, r *Report, d *dispatchInfo) {
 			return
 		}
 		base, f, ok := fieldOfAddr(st.Addr)
-		if !ok || seeThrough(base) != ssa.Value(rte) {
+		if !ok || seeThrough(base) != rte {
 			return
 		}
 		if idx, isChain := want[f]; isChain {
